@@ -151,6 +151,8 @@ func Discharge(results []*FuncResult, timeoutMs int, seed int, all bool, keepQue
 	var mu sync.Mutex
 	var wg sync.WaitGroup
 	sem := make(chan struct{}, 6)
+	seenQ := map[string]*Obligation{}
+	dups := map[*Obligation][]*Obligation{}
 	for _, j := range jobs {
 		o := j.o
 		// syntactic discharge
@@ -168,18 +170,26 @@ func Discharge(results []*FuncResult, timeoutMs int, seed int, all bool, keepQue
 			o.Result, o.Solver = "unreachable", "syntactic"
 			continue
 		}
+		// identical queries (up to the numbering of fresh symbols) are solved once: path
+		// splitting re-executes common prefixes
+		var q string
+		if o.ExpectSat {
+			q = j.ctx.QueryOpt(o.Hyps, o.Goal, false, QRaw)
+		} else {
+			q = j.ctx.QueryOpt(o.Hyps, o.Goal, true, QInst)
+		}
+		key := canonQuery(q)
+		if first, ok := seenQ[key]; ok {
+			dups[first] = append(dups[first], o)
+			continue
+		}
+		seenQ[key] = o
 		wg.Add(1)
 		sem <- struct{}{}
-		go func(j job) {
+		go func(j job, q string) {
 			defer wg.Done()
 			defer func() { <-sem }()
 			o := j.o
-			var q string
-			if o.ExpectSat {
-				q = j.ctx.QueryOpt(o.Hyps, o.Goal, false, QRaw)
-			} else {
-				q = j.ctx.QueryOpt(o.Hyps, o.Goal, true, QInst)
-			}
 			if keepQueries {
 				o.Query = q
 			}
@@ -189,7 +199,7 @@ func Discharge(results []*FuncResult, timeoutMs int, seed int, all bool, keepQue
 			}
 			var r solveResult
 			done := false
-			if !o.ExpectSat && strings.Contains(q, "(forall ") || strings.Contains(q, "(exists ") {
+			if !o.ExpectSat && (strings.Contains(q, "(forall ") || strings.Contains(q, "(exists ")) {
 				// stage 1: ground instances only, every remaining quantifier dropped (weaker, sound)
 				lq := j.ctx.QueryOpt(o.Hyps, o.Goal, true, QLite)
 				lr, _ := race(lq, dir, j.id+1000000, 5000, seed, false)
@@ -230,8 +240,28 @@ func Discharge(results []*FuncResult, timeoutMs int, seed int, all bool, keepQue
 				o.Result = "unknown"
 				o.Query = q
 			}
-		}(j)
+		}(j, q)
 	}
 	wg.Wait()
+	for first, list := range dups {
+		for _, o := range list {
+			o.Result, o.Solver, o.Ms, o.Raw, o.Model, o.Query = first.Result, first.Solver+"(dup)", 0, first.Raw, first.Model, first.Query
+		}
+	}
 	return solverSeconds
+}
+
+var freshNumRe = regexp.MustCompile(`[!?]\d+|\$d\d+`)
+
+// canonQuery renumbers fresh symbols in order of first occurrence.
+func canonQuery(q string) string {
+	m := map[string]string{}
+	return freshNumRe.ReplaceAllStringFunc(q, func(s string) string {
+		if r, ok := m[s]; ok {
+			return r
+		}
+		r := fmt.Sprintf("%c#%d", s[0], len(m))
+		m[s] = r
+		return r
+	})
 }
